@@ -410,7 +410,7 @@ def run(ctx):
     ctx.progress('leg A1: %d behaviours, %d replays compared' % (len(behaviours), counts['A1']))
 
     # ---- leg A2: simulated fine-grained behaviours -> racy stimulus scripts -------------------------
-    rs = ctx.tlc('MC_WsBuffer', 'MC_WsBufferA2.cfg', simulate={'num': ctx.pick(500, 9000)}, depth=30,
+    rs = ctx.tlc('MC_WsBuffer', 'MC_WsBufferA2.cfg', simulate={'num': ctx.pick(500, 7000)}, depth=30,
                  seed=ctx.seed + 1, workers=4, timeout=600, count=False)
     sims = list({digest(b): b for b in rs.json}.values())
     sims.sort(key=digest)
@@ -420,13 +420,13 @@ def run(ctx):
     ctx.progress('leg A2: %d simulated behaviours driven' % len(sims))
 
     # ---- leg B: seeded random scripts beyond the bounds ------------------------------------------
-    for _ in range(ctx.pick(3000, 60000)):
+    for _ in range(ctx.pick(3000, 45000)):
         execute(random_case(ctx.rng), 'B')
     ctx.progress('leg B: %d random scripts driven; %d distinct traces to judge' % (counts['B'], len(seen)))
 
     # ---- TLC judges every distinct boundary trace ---------------------------------------------------
     items = list(seen.values())
-    verdicts = ctx.judge('WsBufferTrace', [t for t, _ in items], workers=8, timeout=1500, chunk=6000)
+    verdicts = ctx.judge('WsBufferTrace', [t for t, _ in items], workers=8, timeout=1500, chunk=12000)
     for (trace, case), v in zip(items, verdicts):
         if v == 'ok':
             continue
